@@ -77,12 +77,27 @@ def run_proc(cmd, repo, extra_env=None, timeout=120):
     return p.returncode, p.stdout.decode("utf-8", "replace"), p.stderr.decode("utf-8", "replace")
 
 
+def run_closed_stdout(cmd, repo, unbuffered="0", timeout=120):
+    env = {k: v for k, v in os.environ.items() if k in ("PATH", "HOME", "LANG", "TMPDIR")}
+    env.update({"PYTHONPATH": repo, "PYTHONDONTWRITEBYTECODE": "1", "PYTHONIOENCODING": "utf-8", "PYTHONHASHSEED": "0"})
+    if unbuffered == "1":
+        env["PYTHONUNBUFFERED"] = "1"
+    p = subprocess.Popen(cmd, env=env, stdout=subprocess.PIPE, stderr=subprocess.DEVNULL)
+    p.stdout.close()  # the reader goes away before the tool writes anything
+    try:
+        return p.wait(timeout)
+    except subprocess.TimeoutExpired:
+        p.kill()
+        return None
+
+
 def write(path, obj=None, raw=None):
     with open(path, "wb") as f:
         f.write(raw if raw is not None else json.dumps(obj).encode("utf-8"))
 
 
-ROOT_ROWS = ["accept", "version", "old_rule", "new_rule", "type", "new_malformed", "no_root_delegation", "trusted_malformed", "accept"]
+ROOT_ROWS = ["accept", "version", "old_rule", "new_rule", "type", "new_malformed", "no_root_delegation", "trusted_malformed", "accept",
+             "noisy_reject"]
 DELEG_KINDS = ["ok", "below", "wrongkey", "type_mismatch", "unknown_role", "junk", "edited", "ok", "signatures_list", "trusted_not_delegating",
                "trusted_malformed", "untrusted_extra_envelope_field"]
 CROSS = ["root_under_nonroot_with_root_role", "keymgr_under_keymgr", "root_raw_signed_under_root"]
@@ -99,6 +114,12 @@ def gen_pair(rng, cls=None):
     U = [gkeys.key(i) for i in range(8)]
     if r < 0.45:
         row = cls[1]
+        if row == "noisy_reject":
+            # a rejected offer whose verification prints a long report (hundreds of ignored entries): > 8 KiB of stdout
+            c = rootchain.gen_pair(rng, "old_rule")
+            for j in range(300):
+                c["new"]["signatures"]["%064x" % rng.getrandbits(256)] = {"other_headers": "04001608", "signature": "%0128x" % rng.getrandbits(512)}
+            return "root:noisy_reject", json.dumps(c["trusted"]).encode(), json.dumps(c["new"]).encode()
         c = rootchain.gen_pair(rng, row)
         return "root:" + row, json.dumps(c["trusted"]).encode(), json.dumps(c["new"]).encode()
     if r < 0.8:
@@ -242,6 +263,19 @@ def run_verify(spec, rec, lib):
             if rc == 0 and not ok_txt:
                 rec.count("accept_without_success_report")
                 rec.violation("output/%s/no-success-report-on-accept" % name, "exit 0 without reporting success", case)
+        if not acc and tb is not None and ub is not None and (label.endswith("noisy_reject") or n % 4 == 0):
+            # I/O fault at a particular point: stdout is a pipe whose reader has gone away.  Whatever happens to
+            # the report, a rejected pair must not produce exit status 0.
+            for name, cmd in eps:
+                for unbuf in ("0", "1"):
+                    rc = run_closed_stdout(cmd + ["verify-metadata", tp, up], lib.repo, unbuf)
+                    rec.case("%s|closed-stdout|%s|%s" % (name, label, unbuf))
+                    rec.count("closed_stdout_runs")
+                    if rc == 0:
+                        rec.violation("exit-status/%s/zero-on-reject-with-closed-stdout" % name,
+                                      "library rejects (%s); with stdout a closed pipe (PYTHONUNBUFFERED=%s) %s exited 0" % (why, unbuf, name),
+                                      {"kind": "verify", "entry": name, "label": label + "+closed-stdout",
+                                       "trusted": tb.decode("utf-8", "replace"), "untrusted": ub.decode("utf-8", "replace")})
         if n < 1:
             rec.sample({"pair": label, "library_verdict": why, "entry_points": [e[0] for e in eps]})
 
